@@ -25,6 +25,8 @@ func IsErrno(kind string) bool { _, ok := errnoByName[kind]; return ok }
 
 // op records an operation and returns the fault planned for it, if any.
 func op(kind, path string) (seq int, f *Fault) {
+	mu.Lock()
+	defer mu.Unlock()
 	if cur == nil {
 		return -1, nil
 	}
@@ -42,6 +44,8 @@ func op(kind, path string) (seq int, f *Fault) {
 }
 
 func opDone(seq int, n int, err error) {
+	mu.Lock()
+	defer mu.Unlock()
 	if cur == nil || seq < 0 {
 		return
 	}
@@ -322,6 +326,8 @@ func Create(name string) (*File, error) {
 // temp names are random in reality: here they derive from the run's random seed, so a name
 // leaking into an observable shows up as a divergence between twins
 func tmpName() string {
+	mu.Lock()
+	defer mu.Unlock()
 	if cur == nil {
 		return "sim0"
 	}
@@ -359,9 +365,11 @@ func CreateTemp(dir, pattern string) (*File, error) {
 		if err != nil {
 			return nil, err
 		}
+		mu.Lock()
 		if cur != nil {
 			cur.Ops[seq].Path = name
 		}
+		mu.Unlock()
 		return wrap(f, name, true), nil
 	}
 	return nil, pathErr("open", dir, "EEXIST")
@@ -430,6 +438,8 @@ func ReadFile(name string) ([]byte, error) {
 
 // corrupt applies a content-corruption fault planned for the *open-r* of this read, if any.
 func corrupt(name string, data []byte) []byte {
+	mu.Lock()
+	defer mu.Unlock()
 	if cur == nil {
 		return data
 	}
